@@ -120,6 +120,8 @@ func randLabel(r *rng, maxLen int) []byte {
 	}
 	if dottedLabels && n >= 3 && r.coin(4) {
 		b[r.rng(1, n-2)] = '.' // a dot inside a label
+	} else if dottedLabels && r.coin(3) {
+		b[[]int{0, n - 1}[r.intn(2)]] = '.' // ... or at its edge: the printed name then has two dots in a row
 	}
 	return b
 }
